@@ -211,6 +211,20 @@ func TestPropAccessorRoundTrip(t *testing.T) {
 				h := arbitraryHeader(rt, num, uint64(ntx), evCount)
 				h.EventsBloom = core.EventsBloom(rcs)
 				b := ch.Draw(rt) // for a state diff with every section possibly populated
+				// the feeder adapter stores a contract listed with no changed slot as an entry with an empty slot map, and the
+				// state-diff hash / commitment count such entries: they must come back too
+				if rapid.IntRange(0, 2).Draw(rt, "emptySlotMaps") == 0 {
+					if b.SU.StateDiff.StorageDiffs == nil {
+						b.SU.StateDiff.StorageDiffs = map[felt.Felt]map[felt.Felt]*felt.Felt{}
+					}
+					for j := rapid.IntRange(1, 2).Draw(rt, "nEmpty"); j > 0; j-- {
+						a := rapid.SampledFrom(u.AllAddrs()).Draw(rt, "emptyAddr")
+						if _, has := b.SU.StateDiff.StorageDiffs[a]; !has {
+							b.SU.StateDiff.StorageDiffs[a] = map[felt.Felt]*felt.Felt{}
+							c.Label("storage-diff-entry-without-slots")
+						}
+					}
+				}
 				su := &core.StateUpdate{BlockHash: h.Hash, NewRoot: ptr(gen.Felt().Draw(rt, "nr")), OldRoot: ptr(gen.Felt().Draw(rt, "or")), StateDiff: b.SU.StateDiff}
 				cm := &core.BlockCommitments{TransactionCommitment: ptr(gen.Felt().Draw(rt, "c1")), EventCommitment: ptr(gen.Felt().Draw(rt, "c2")),
 					ReceiptCommitment: ptr(gen.Felt().Draw(rt, "c3")), StateDiffCommitment: ptr(gen.Felt().Draw(rt, "c4")), StateDiffLength: su.StateDiff.Length()}
